@@ -37,13 +37,13 @@ MAINTAG = {'C01': 'C01', 'C20': 'C20', 'C14': 'C14'}
 
 # The line oracle's input outcomes (MissingInput iff declared and absent, InvalidInput iff supplied and rejected, a value only when
 # supplied and valid) are the contract of InputStore.__getitem__: its unit is part of every property proved through the oracle.
-ORACLE_USERS = ('C01', 'C03', 'C13')
+ORACLE_USERS = ('C01', 'C03', 'C13', 'C20')
 
 
 def oracle_store_unit(prop):
-    from . import c11
+    from . import store_units
     out = []
-    for o in c11.store_getitem():
+    for o in store_units.store_getitem() + store_units.store_provides() + store_units.store_setitem():
         o.id = o.id.replace('C11/', f'{prop}/oracle/')
         out.append(o)
     return out
@@ -72,7 +72,7 @@ def gather(prop, tier, seed, extra_tasks=()):
         tasks.append(Task('unit/main', unit_runner, 'main', weight=2))
     tasks += list(extra_tasks)
     if prop in ORACLE_USERS:
-        tasks.append(Task('oracle/InputStore.__getitem__', oracle_store_unit, prop))
+        tasks.append(Task('oracle/InputStore', oracle_store_unit, prop))
     obs = oblig.run_tasks(tasks, jobs=4)
     sel = SELECT[prop]
     solver_obs = [o for o in obs if o.id.startswith('SOLVER/') and (sel(o.id.split('/', 1)[1]) or any(k in o.id for k in ALWAYS))]
